@@ -87,7 +87,8 @@ TEXT = {
                    "(a component added while its type has no subscriber is never announced; a later subscriber is sent an update it cannot apply) and corpus/F13-*.hist fails the same way on the real server; "
                    "it is recorded as a known finding, not repaired (protocol change). The schedule-quantified clause: one piece is proved on a small concurrent model (Model/Attach.lean: "
                    "C01_conc_action_never_outlives_entity for every interleaving of an entity's removal with any number of action requests; C01_old_order_keeps_a_stale_action is the kernel-checked "
-                   "interleaving of the code before the repair F21); the rest is explored on the real handlers, not proved: every interleaving with at most two preemptions of 2-3 concurrent requests "
+                   "interleaving of the code before the repair F21; Model/Handover.lean: C01_conc_newcomer_consistent - every interleaving of a join with the departure of an entity's owner leaves the newcomer "
+                   "without the entity and without its action, decided over the complete table of interleavings - and C01_old_handover_leaves_a_stale_action for the code before F23); the rest is explored on the real handlers, not proved: every interleaving with at most two preemptions of 2-3 concurrent requests "
                    "at lock granularity, judged by serial-order explanation on the model or else by convergence of every member's view with what later newcomers are handed.",
              note=_std_note + " The induction from the per-event theorems to 'at every quiescent point' is the view monitor's job on recorded traces (every member's accumulated view is compared with what each newcomer is handed).",
              technique=_tech + " + per-member view replica evaluated on real traces"),
